@@ -97,6 +97,17 @@ def ts_wins(syn, crate, prop="C10"):
         if not merges:
             r.fail(prop, "serde-not-merged %s::from_attrs" % x, "from_attrs does not merge serde attributes at all", b.file(), b.line())
             continue
+        if x in ("StructAttr", "EnumAttr"):
+            # a container's #[serde(..)] attributes are merged on every path that returns Ok (with `cfg!` folded): no
+            # property of the #[ts(..)] side (an override, a flag) decides whether serde is read at all
+            avoid = {blk for blk, _ in merges} | {blk for blk, t2 in b.calls() if fn_matches(t2, r"FromResidual") and not b.is_cleanup(blk)}
+            live = live_blocks(b, avoid=avoid)
+            bypass = [blk for blk in live if not b.is_cleanup(blk) and b.term(blk)["k"] == "return"]
+            r.inst(fn=b.path, serde_merged_on_every_success_path=not bypass)
+            if bypass:
+                r.fail(prop, "serde-merge-conditional %s::from_attrs" % x,
+                       "a path through from_attrs returns Ok without merging the #[serde(..)] attributes: under that condition `#[serde(rename = \"X\")]` no longer acts like `#[ts(rename = \"X\")]`",
+                       b.file(), b.line())
         for blk, t in merges:
             recv = {M.callee(o["t"]) for o in origins(b, op_local(t["args"][0])) if o["kind"] == "call"}
             arg = {M.callee(o["t"]) for o in origins(b, op_local(t["args"][1])) if o["kind"] == "call"}
@@ -190,13 +201,13 @@ def feature_gate(syn, mir_nodefault, prop="C10"):
     return r
 
 
-def live_blocks(body):
-    """reachability with constant switch operands folded"""
+def live_blocks(body, avoid=()):
+    """reachability with constant switch operands folded (blocks in `avoid` are not entered)"""
     seen = set()
     work = [0]
     while work:
         b = work.pop()
-        if b in seen:
+        if b in seen or b in avoid:
             continue
         seen.add(b)
         t = body.term(b)
@@ -437,6 +448,64 @@ def trailing_comma_rule(T, prop="C10"):
     return r
 
 
+def serde_lists_rule(crate, prop="C10"):
+    """each #[serde(..)] list stands for itself: a list ts-rs cannot read (an empty `#[serde()]`, a list with a broken value)
+    is dropped, the others are still merged"""
+    r = Result("C10.R12", "utils::parse_serde_attrs folds over *all* #[serde(..)] attributes of the item: between `attrs.iter()` and the fold there are only per-element adaptors (filter, flat_map/filter_map over the parse result), nothing that ends the iteration at the first unreadable list or skips/limits elements by position")
+    cands = [b for b in crate.bodies if re.search(r"utils::parse_serde_attrs$", b.path)]
+    if not cands:
+        r.fail(prop, "anchor-missing parse_serde_attrs", "not found")
+        return r
+    b = cands[0]
+    STOPPERS = r"Iterator::(map_while|take_while|take|skip|skip_while|step_by|scan|try_fold|try_for_each|find|find_map|next|nth|last|position|any|all|peekable|fuse|zip)$"
+    ads = []
+    for blk, t in b.calls():
+        if b.is_cleanup(blk) or not t.get("fn"):
+            continue
+        p = t["fn"]["path"]
+        if re.search(r"Iterator::\w+$", p):
+            ads.append(p.split("::")[-1])
+        if fn_matches(t, STOPPERS):
+            f, l = M.user_span(t["span"])
+            r.fail(prop, "serde-lists-cut-short utils::parse_serde_attrs -> %s" % p.split("::")[-1],
+                   "%s in parse_serde_attrs: after a #[serde(..)] list that cannot be read (e.g. the empty `#[serde()]` a macro_rules repetition expands to) the remaining lists are ignored, so where a key is written decides whether it acts" % p.split("::")[-1],
+                   f, l)
+    folds = [a for a in ads if a in ("fold", "for_each", "reduce")]
+    r.inst(fn=b.path, iterator_calls=ads, folds_all=bool(folds))
+    if not folds:
+        r.fail(prop, "anchor-missing serde fold", "parse_serde_attrs does not fold over the attributes", b.file(), b.line())
+    r.floor = 1
+    return r
+
+
+def nested_buffer_rule(crate, prop="C10"):
+    """syn reports `unexpected token` when a nested ParseBuffer (the content of `( .. )`) is dropped with tokens left; in a
+    Serde<X> parser that error takes the whole #[serde(..)] list with it"""
+    r = Result("C10.R13", "wherever an attribute parser opens a delimited group (`parenthesized!`, `bracketed!`, `braced!`), the group's buffer is read to its end: by `parse_terminated`, by a loop on `is_empty()`, or by parsing a TokenStream; a parser that reads one entry and returns leaves tokens behind, and the surrounding list fails as a whole")
+    n = 0
+    for b in crate.bodies:
+        if not (b.path.startswith("attr::") or b.path.startswith("utils::")):
+            continue
+        opens = [(blk, t) for blk, t in b.calls() if not b.is_cleanup(blk) and fn_matches(t, r"__private::parse_(parens|brackets|braces)$", r"group::parse_(parens|brackets|braces)$")]
+        if not opens:
+            continue
+        n += len(opens)
+        drains = [t for blk, t in b.calls() if not b.is_cleanup(blk) and
+                  (fn_matches(t, r"parse_terminated$", r"ParseBuffer::<'.*>::is_empty$") or
+                   (fn_matches(t, r"ParseBuffer::<'.*>::parse$") and "TokenStream" in (t.get("dst_ty") or "")))]
+        ok = bool(drains)
+        for blk, t in opens:
+            f, l = M.user_span(t["span"])
+            r.inst(fn=b.path, opens=t["fn"]["path"].split("::")[-1], where="%s:%s" % (f, l), drained_by=[d["fn"]["path"].split("::")[-1] for d in drains])
+            if not ok:
+                r.fail(prop, "nested-buffer-not-drained %s" % b.path,
+                       "%s opens a delimited group and never reads it to the end (no parse_terminated, no is_empty loop): e.g. `bound(serialize = \"..\", deserialize = \"..\")` leaves `, deserialize = ..` behind, syn raises `unexpected token` when the buffer is dropped, and every other key of that #[serde(..)] list is lost" % b.path,
+                       f, l)
+    r.stats["groups_opened"] = n
+    r.floor = 1
+    return r
+
+
 def run(ctx):
     out = []
     syn = ctx.syn
@@ -446,7 +515,7 @@ def run(ctx):
     for fs in fsets:
         c = ctx.mir(fs)["ts_rs_macros"]
         T = tables.extract(c)
-        res = [arm_agreement(T), supported_keys(T), eq_once(T), fallback_rule(T, c), skip_cursor_rule(c), serde_path_panics(c, syn), trailing_comma_rule(T)]
+        res = [arm_agreement(T), supported_keys(T), eq_once(T), fallback_rule(T, c), skip_cursor_rule(c), serde_path_panics(c, syn), trailing_comma_rule(T), serde_lists_rule(c), nested_buffer_rule(c)]
         if fs == "default":
             nd = ctx.mir("nodefault") if ctx.tier == "thorough" else None
             res += [ts_wins(syn, c), feature_gate(syn, nd), value_forms(T, syn)]
